@@ -7,5 +7,10 @@ def pmap(fn, jobs, workers=None):
     jobs = list(jobs)
     if len(jobs) <= 1 or os.environ.get("VERIF_SERIAL"):
         return [fn(j) for j in jobs]
+    try:
+        from pyvc import solve
+        solve.shutdown()        # never fork while another executor's helper threads are alive
+    except Exception:
+        pass
     with ProcessPoolExecutor(max_workers=workers or min(14, len(jobs))) as ex:
         return list(ex.map(fn, jobs))
